@@ -205,13 +205,13 @@ theorem enabler_required (sw : Bytes) (st : State) (rq : Request) (m : Matched) 
   · exact absurd rfl hh
 
 /-- a slot whose share was created with enabler `[9]`: a write with enabler "ABC" is answered 401, nothing changes -/
-example : step [1] { muts := [(("aaaaaaaaaaaaaaaaaaaaaaaaaa", 0), ⟨[9], [1, 2, 3], []⟩)] }
+example : step [1] { muts := [(("aaaaaaaaaaaaaaaaaaaaaaaaaa", 0), ⟨[9], [1, 2, 3], [], []⟩)] }
     ⟨"POST", ["storage", "v1", "mutable", "aaaaaaaaaaaaaaaaaaaaaaaaaa", "read-test-write"], [authHeader [1]],
      [[119, 114, 105, 116, 101, 45, 101, 110, 97, 98, 108, 101, 114, 32, 81, 85, 74, 68],
       (("lease-renew-secret ".toList.map Char.toNat) ++ List.replicate 43 65 ++ [61]),
       (("lease-cancel-secret ".toList.map Char.toNat) ++ List.replicate 43 65 ++ [61])].map (fun l => l.map UInt8.ofNat),
      .rtw ⟨[(0, ⟨[], [(0, [8])], none⟩)], []⟩⟩
-    = ({ muts := [(("aaaaaaaaaaaaaaaaaaaaaaaaaa", 0), ⟨[9], [1, 2, 3], []⟩)] }, ⟨401, .empty⟩) := by decide
+    = ({ muts := [(("aaaaaaaaaaaaaaaaaaaaaaaaaa", 0), ⟨[9], [1, 2, 3], [], []⟩)] }, ⟨401, .empty⟩) := by decide
 
 /-! ### Authorization as a specification: a pure function of (route, headers) -/
 
